@@ -54,7 +54,7 @@ func runC07(c *Ctx) {
 	for _, fn := range m.Methods {
 		// the removal helper: unexported method (key) error that deletes from the table
 		if fn.Object() != nil && !fn.Object().Exported() && fn.Signature.Params().Len() == 1 && fn.Signature.Results().Len() == 1 {
-			for _, a := range w.FieldAccesses(m.Server, m.fCerts) {
+			for _, a := range w.FieldAccesses(m.Owner(m.fCerts), m.fCerts) {
 				if a.Fn == fn && a.Kind == "mapdelete" {
 					remove = fn
 				}
@@ -105,7 +105,7 @@ func runC07(c *Ctx) {
 		c.Floor("R1.filterfirst", n, 1, "successful return of "+name)
 		// what the answer is computed from is read after pruning: every read of the in-memory certificate table in
 		// this method comes after the pruning call (an entry fetched before it may be one the pruning pass removes)
-		for _, a := range w.FieldAccesses(m.Server, m.fCerts) {
+		for _, a := range w.FieldAccesses(m.Owner(m.fCerts), m.fCerts) {
 			if a.Fn != fn && !(a.Fn.Parent() == fn) {
 				continue
 			}
@@ -536,7 +536,7 @@ func runC07(c *Ctx) {
 	}
 	c.Check(okAgentRemove, "R3.wiring", "remove|underlying agent asked to remove the key", w.FnPos(remove), "s.agent.Remove(key)", "remove no longer removes the key from the underlying agent")
 	okDel := false
-	for _, a := range w.FieldAccesses(m.Server, m.fCerts) {
+	for _, a := range w.FieldAccesses(m.Owner(m.fCerts), m.fCerts) {
 		if a.Fn == remove && a.Kind == "mapdelete" {
 			call := a.Instr.(ssa.CallInstruction)
 			if strings.Contains(w.Expr(call.Common().Args[1]), "Marshal>(p1)") {
